@@ -60,7 +60,7 @@ LEXCASES = ['b101', 'B101', 'FACEH', 'ffh', '0X1F', '1AH', '%101', '7 %10', '7 %
             '-1 + 2', '- - 3', '-(3)', '-3*-3', '2*-3', '1/49*49', '7/2', '-7/2', '(0-7)/2', '-7 % 3', '7 % (0-3)',
             '1 << 64', '(1 << 64) - 1 >> 60', '-1 >> 3', '-8 >> 1', '-5 & 3', '-5 | 3', '-5 ^ 3', '6 & 3 | 8 ^ 1',
             '2 + 3 * 4', '2 * 3 + 4', '2 + 3 << 1', '1 << 2 + 3', '1 | 2 << 1', '8 / 2 / 2', '8 - 2 - 2', '2 * 7 % 4',
-            '(2+3)*4', '((2))', '()', '', '+', '1 +', '(1', '1)', 'BYTE0(-1)', 'BYTE1(-256)', 'BYTE2(-65536) + BYTE3(-1)',
+            '(2+3)*4', '((2))', '()', '', ' ', '\t ', '+', '1 +', '(1', '1)', 'BYTE0(-1)', 'BYTE1(-256)', 'BYTE2(-65536) + BYTE3(-1)',
             'LSB(-129)', 'BYTE1(0-129)', 'BYTE1(65535/2)', 'LSB(7/2)', 'LSB(-7/2)', '10 / 4 * 4', '10 / 4 + 10 / 4',
             'BYTE10(513)', 'BYTE10($112233445566778899AABBCCDD)', 'BYTE12(1)', 'BYTE00(5)', 'BYTE01(513)', 'BYTE20(-1)',
             'BYTE1(2)(3)', 'LSB1(5)', 'LSB0(5)', 'BYTE(5)', 'byte1(513)', 'lsb(5)', 'Byte1(513)', 'BYTE1 (513)', 'LSB (5)',
@@ -161,7 +161,8 @@ def generate(rng, tier):
         # syntax around the text, so blank text and ''' are in scope too)
         if c.get('offset_sign'):
             continue
-        if len(c['exprs']) == 1 and rng.random() < 0.3:
+        if len(c['exprs']) == 1 and (rng.random() < 0.3 or not c['exprs'][0].strip()):
+            # (a text that is empty or all blanks is no operand and no data value: only this channel asks for ITS value)
             c['direct'] = True
             continue
         # error / malformed / corner texts are observed through both channels: a 512-bit numeric operand and a .8byte line
